@@ -212,6 +212,9 @@ static void op_cmp(const Bytes &a, const Bytes &b) {
     g.run("eq", "==", [&] { return jint(sa == sb); });
     g.run("ne", "!=", [&] { return jint(sa != sb); });
     g.run("lt", "<", [&] { return jint(sa < sb); });
+    // the hash of an object that is hashed, given another value of the same length, and hashed again
+    g.run("hashre", "hash(reassigned)", [&] { string t = sa; size_t h0 = ST::hash()(t); (void)h0; t = sb; size_t h1 = ST::hash()(t); size_t h2 = ST::hash()(sb); return "[" + jnum(h1) + "," + jnum(h2) + "]"; });
+    g.run("hashre", "std::hash(reassigned)", [&] { string t = sb; size_t h0 = std::hash<string>()(t); (void)h0; t = sa; size_t h1 = std::hash<string>()(t); (void)h1; t = sb; size_t h2 = std::hash<string>()(t); size_t h3 = std::hash<string>()(sb); return "[" + jnum(h2) + "," + jnum(h3) + "]"; });
     g.run("isign", "compare_i(string)", [&] { return jsign(sa.compare_i(sb)); });
     g.run("isign", "compare(string,ci)", [&] { return jsign(sa.compare(sb, ST::case_insensitive)); });
     g.run("ieq", "equal_i", [&] { return jint(ST::equal_i()(sa, sb)); });
@@ -628,6 +631,9 @@ int main(int argc, char **argv) {
         // every byte value as a single-unit needle against its bit-5 and bit-7 twins: the case-insensitive forms
         // must fold ASCII letters only ('@' is not '`', '[' is not '{', NUL is not ' '), whatever the needle form
         for (int c = 0; c < 256; ++c) {
+            // ... and as the SECOND byte of a two-byte needle (the comparison loop behind the first-byte scan)
+            { Bytes n2{'x', (char)c}; Bytes hs{'x', (char)(c ^ 0x20), '-', 'X', (char)c, 'x', (char)(c ^ 0x80)};
+              for (int ci = 0; ci < 2; ++ci) { op_find(hs, n2, 0, ci); op_findlast(hs, n2, ~0ull, ci); op_bafl(hs, n2, ci); op_split(hs, n2, ~0ull, ci); op_replace(hs, n2, "#", ci); } }
             Bytes n(1, (char)c);
             for (const Bytes &hs : {Bytes(1, (char)(c ^ 0x20)), Bytes{(char)(c ^ 0x20), (char)c}, Bytes{(char)(c ^ 0x80), (char)(c ^ 0x20), 'x', (char)c, (char)(c ^ 0x20)}})
                 for (int ci = 0; ci < 2; ++ci) { op_find(hs, n, 0, ci); op_findlast(hs, n, ~0ull, ci); op_affix(hs, n, ci); }
@@ -655,6 +661,9 @@ int main(int argc, char **argv) {
             for (const char *cs : {" ", " \t\r\n", "ab", "a", "", "\xFF" "b"}) op_trim(s, cs);
         }
         for (auto &s : strs) for (auto &sep : needles) for (int ci = 0; ci < 2; ++ci) op_bafl(s, sep, ci);
+        // two-byte separators whose second byte has a bit-5 / bit-7 twin in the text
+        for (int c = 0; c < 256; ++c) { Bytes n2{'x', (char)c}; Bytes hs{'x', (char)(c ^ 0x20), '-', 'X', (char)c, 'x', (char)(c ^ 0x80)};
+            for (int ci = 0; ci < 2; ++ci) op_bafl(hs, n2, ci); }
         for (auto &s : subj) if (s.size() > (size_t)maxlen) for (const char *sep : {"c", "c ", " d", "zz", ""}) for (int ci = 0; ci < 2; ++ci) op_bafl(s, sep, ci);
     } else if (gen == "c08rand") {
         std::vector<long long> ws = {32, 9, 10, 13, 97, 98, 0, 255};
@@ -674,6 +683,8 @@ int main(int argc, char **argv) {
             for (auto &to : tos) op_replace(s, sep, to, ci);
         }
         for (auto &s : strs) for (auto &d : needles) if (nulfree(d)) op_tokenize(s, d);
+        for (int c = 0; c < 256; ++c) { Bytes n2{'x', (char)c}; Bytes hs{'x', (char)(c ^ 0x20), '-', 'X', (char)c, 'x', (char)(c ^ 0x80)};
+            for (int ci = 0; ci < 2; ++ci) { op_split(hs, n2, ~0ull, ci); op_replace(hs, n2, "#", ci); } }
         // growth and shrinkage across the small-string limit
         size_t L = ST_MAX_SSO_LENGTH;
         for (size_t n = L - 3; n <= L + 3; ++n) for (const char *from : {"a", "ab", "b c"}) for (const char *to : {"", "x", "xy", "xyz", "abab"})
